@@ -48,6 +48,20 @@ SHORT.update({
  'C11-2': ('contact-group key cached under the member-key namespace', 'a multi-member group whose identifier equals a contact account key'),
  'C12-2': ('`FilterGroupForReplication` returns its input unchanged when `SignPub` and a 32-byte `LinkKey` are set', 'an invitation that carries those optional public fields'),
 })
+SHORT.update({
+ 'C01-3': ('`OutOfStoreMessageOpen` memoises the message key under the (unauthenticated) entry identifier of the push payload', 'genuine envelope relayed as a push with a chosen identifier, then a forged entry under that identifier'),
+ 'C02-3': ('`postDecryptActions` skips deriving the next key when the stored chain key is already far enough ahead', 'a message opened after a younger one, then one at the window edge'),
+ 'C03-3': ('`sigCheckerGroupSigned`: `err != nil && !ok`: any signature passes on the initial-member announcement', 'adversarial ownership claim'),
+ 'C04-3': ('`handleContactAliasKeyAdded` drops alias keys of devices not yet in the (never reset) device map', 'one index pass over a batch vs. several passes'),
+ 'C05-3': ('`getOwnDeviceChainKeyForGroup` narrowed lock without re-read (the change of C09-2 filed under C05)', 'two concurrent first requests of the own chain key'),
+ 'C06-3': ('`computeRequesterAuthenticateBoxKey`: `:=` shadow, the box key no longer depends on the target account', 'a requester targeting another account relayed to this responder'),
+ 'C07-3': ('`ContactRequestIncomingReceived` guard loses `ContactStateRemoved`', 'block, unblock, incoming request'),
+ 'C08-3': ('`WaitForItem` drains the signal channel after releasing the lock', 'an `Add` between the unlock and the drain'),
+ 'C10-3': ('chain key of a peer written before the next precomputed message key on the receive path', 'a crash between the two writes; the message one window ahead'),
+ 'C12-3': ('`Group.IsValid` returns nil when `SecretSig` is empty', 'an invitation with the signature stripped'),
+ 'C14-3': ('`createOutOfStoreGroupReference` no longer depends on the sender device', 'two senders in one group whose windows drift apart'),
+ 'C20-3': ('`RestoreAccountExport` ignores `(false, err)` of a file handler: a duplicated key file is accepted', 'an archive with a second key file'),
+})
 rows = []
 for m in sorted(glob.glob(os.path.join(R, 'seeded', '*', 'meta.json'))):
     d = json.load(open(m))
